@@ -6,6 +6,7 @@ import GaeaVerif.Model.Go
     backend/slice.go      (*DBInfo).getIndicesAndWeights, (*DBInfo).InitBalancers,
                           (*DBInfo).GetNode, allSlaveIsOffline,
                           (*Slice).getNodeFromBalancer, getConnFromBalancer,
+                          getConnFromBalancerTryAll (after the `fix:` commit 5e14b16),
                           getConnWithFuse (pool answer only), GetSlaveConn
 
   Go `int` is modelled by `Int` (`/` = `Int.tdiv`, `%` = `Int.tmod`); the
@@ -262,6 +263,31 @@ def getConnFromBalancer (nodes : List Node) (b : Balancer) : Balancer × Sel :=
     | none => (b1, .panic)
   | r => r
 
+/-- The loop of `getConnFromBalancerTryAll`, `n` iterations left. `tried` = the
+    keys of the Go map `tried` (nodes whose pool has been asked in this call,
+    latest first), `last` = `lastErr`.  Result: balancer, outcome, and the nodes
+    whose pool was asked (latest first). -/
+def tryAllLoop (nodes : List Node) : Nat → List Int → Sel → Balancer → Balancer × Sel × List Int
+  | 0, tried, last, b => (b, last, tried)
+  | n + 1, tried, last, b =>
+    match getNodeFromBalancer nodes b with
+    | (b1, .conn i) =>
+      if tried.contains i then tryAllLoop nodes n tried last b1          -- continue
+      else
+        match GetNode nodes i with
+        | some nd =>
+          if nd.poolOk then (b1, .conn i, i :: tried)
+          else tryAllLoop nodes n (i :: tried) (.pool i) b1              -- lastErr = err
+        | none => (b1, .panic, tried)
+    | (b1, o) => (b1, o, tried)                                          -- return nil, err
+
+/-- backend/slice.go `(*Slice).getConnFromBalancerTryAll` (added by the `fix:`
+    commit): up to `len(roundRobinQ)` calls of `getNodeFromBalancer`; the pool of
+    every node returned is asked once; the first connection is handed out.
+    `lastErr` starts as the "no healthy connection" error. -/
+def getConnFromBalancerTryAll (nodes : List Node) (b : Balancer) : Balancer × Sel × List Int :=
+  tryAllLoop nodes b.roundRobinQ.length [] .noHealthy b
+
 def LocalSlaveReadClosed : Int := 0
 def LocalSlaveReadPrefer : Int := 1
 def LocalSlaveReadForce : Int := 2
@@ -296,8 +322,57 @@ def attemptGlobal (d : DBInfo) : DBInfo × Sel :=
     let r := getConnFromBalancer d.nodes b
     ({ d with globalB := some r.1 }, r.2)
 
-/-- backend/slice.go `(*Slice).GetSlaveConn`. -/
+/-- `getConnFromBalancerTryAll(slavesInfo, slavesInfo.LocalBalancer)` guarded by
+    the nil check in front of it (a nil balancer is skipped: any outcome that is
+    not a connection); third component: the nodes whose pool was asked, latest first. -/
+def attemptLocalAll (d : DBInfo) : DBInfo × Sel × List Int :=
+  match d.localB with
+  | none => (d, .noLocalBalancer, [])
+  | some b =>
+    let r := getConnFromBalancerTryAll d.nodes b
+    ({ d with localB := some r.1 }, r.2.1, r.2.2)
+
+/-- the same for `RemoteBalancer` -/
+def attemptRemoteAll (d : DBInfo) : DBInfo × Sel × List Int :=
+  match d.remoteB with
+  | none => (d, .noLocalBalancer, [])
+  | some b =>
+    let r := getConnFromBalancerTryAll d.nodes b
+    ({ d with remoteB := some r.1 }, r.2.1, r.2.2)
+
+/-- backend/slice.go `(*Slice).GetSlaveConn` (after the `fix:` commit: the
+    preferred-local branch tries every local replica that is up before it goes
+    remote, and every remote one before it gives up). -/
 def GetSlaveConn (d : DBInfo) (policy : Int) : DBInfo × Sel :=
+  if d.nodes.length = 0 ∨ allSlaveIsOffline d.nodes then (d, .noSlave)
+  else if policy = LocalSlaveReadForce then attemptLocal d
+  else if policy = LocalSlaveReadPrefer then
+    let r1 := attemptLocalAll d
+    if r1.2.1.isConn || r1.2.1 == .panic then (r1.1, r1.2.1)
+    else
+      let r2 := attemptRemoteAll r1.1
+      if r2.2.1.isConn || r2.2.1 == .panic then (r2.1, r2.2.1) else (r2.1, .noLocalOrRemote)
+  else
+    -- LocalSlaveReadClosed and every other value: the global balancer
+    attemptGlobal d
+
+/-- The pools asked (`ConnPool.Get`) by one `GetSlaveConn`, in the order of the
+    calls (observed by the harness through the scripted pools). -/
+def GetSlaveConnGets (d : DBInfo) (policy : Int) : List Int :=
+  if d.nodes.length = 0 ∨ allSlaveIsOffline d.nodes then []
+  else if policy = LocalSlaveReadPrefer ∧ policy ≠ LocalSlaveReadForce then
+    let r1 := attemptLocalAll d
+    if r1.2.1.isConn || r1.2.1 == .panic then r1.2.2.reverse
+    else r1.2.2.reverse ++ (attemptRemoteAll r1.1).2.2.reverse
+  else
+    match (GetSlaveConn d policy).2 with
+    | .conn i => [i]
+    | .pool i => [i]
+    | _ => []
+
+/-- `GetSlaveConn` before the `fix:` commit (one attempt per balancer). Kept for
+    the witness theorem only. -/
+def GetSlaveConnLegacy (d : DBInfo) (policy : Int) : DBInfo × Sel :=
   if d.nodes.length = 0 ∨ allSlaveIsOffline d.nodes then (d, .noSlave)
   else if policy = LocalSlaveReadForce then attemptLocal d
   else if policy = LocalSlaveReadPrefer then
@@ -307,7 +382,6 @@ def GetSlaveConn (d : DBInfo) (policy : Int) : DBInfo × Sel :=
       let r2 := attemptRemote r1.1
       if r2.2.isConn || r2.2 == .panic then r2 else (r2.1, .noLocalOrRemote)
   else
-    -- LocalSlaveReadClosed and every other value: the global balancer
     attemptGlobal d
 
 /-! ### histories -/
